@@ -12,7 +12,8 @@ PID = "C01"
 NAMESPACE = "Simu.C01"
 THEOREMS = ["edge_shared_by_two", "split_inv", "swap_inv", "collapse_inv", "rename_inv", "step_inv", "reach_inv",
             "split_chi", "swap_chi", "collapse_chi", "rename_chi", "step_chi", "reach_chi",
-            "collapse_closed_unconditional", "split_volume", "genus0_start"]
+            "collapse_closed_unconditional", "split_volume", "genus0_start",
+            "split_refines", "swap_refines", "concrete_split_inv", "concrete_swap_inv"]
 GEN = ["RemeshConsts"]
 
 
@@ -74,7 +75,7 @@ def run(ctx):
         "obligations": proof["obligations"], "discharged": proof["discharged"],
         "checker_cmd": "lake build SimuVerif.Properties.C01 SimuVerif.Audit.C01 drv_c01 (+ leanchecker in the thorough tier)",
         "trusted_base": vlib.TRUSTED_COMMON + [
-            "link concrete bookkeeping model (Model/Remesh.lean) -> abstract operations (Model/Surface.lean): validated on every executed operation by the driver (absok), not proved",
+            "link concrete bookkeeping model (Model/Remesh.lean) -> abstract operations (Model/Surface.lean): PROVED for split and swap (split_refines, swap_refines; their hypotheses FaceFreeOk / EdgeFaces / EdgeIdxSound are run-time checked), validated on every executed operation by the driver (absok) for the collapse",
             "geometric self-intersection and the floating-point behaviour of the length tests are not modelled"],
         "theorems": proof["axioms"], "proof_failures": proof["failures"], "translator": gen,
         "evaluations": st["lines"], "distinct_nontrivial": res["distinct"],
